@@ -266,7 +266,7 @@ func keyKind(ch *chain, ci *callInfo) string {
 var c03Mutations = []string{"chainid", "amount", "fee", "feedown", "memo", "entropy", "sigflip", "sigtrunc", "sigext", "swapkey"}
 
 func genC03(t *rapid.T, tier string) interface{} {
-	pr := &histProfile{MaxBlocks: 6, MinBlocksOf: []int{1, 3}, MaxTxs: 10, Evidence: 0, Missed: 0, Restart: 0,
+	pr := &histProfile{OwnerBias: 2, MaxBlocks: 6, MinBlocksOf: []int{1, 3}, MaxTxs: 10, Evidence: 0, Missed: 0, Restart: 0,
 		TxKinds:   []string{"send", "send", "send", "stake", "unstake", "unjail", "award", "burn", "param", "dao", "upgrade"},
 		Mutations: c03Mutations, Modes: []string{"check", "check", "", ""}, WrongSigner: 4}
 	p := genHistory(t, pr)
